@@ -234,9 +234,12 @@ func c15Extra(e *Engine, pc *PropertyCheck) {
 	sites := e.supplySites(wrappers)
 	perms := e.maccPerms()
 	var listing []string
+	ord := map[string]int{}
 	for _, s := range sites {
-		name := "site:" + s.pos + "/" + s.kind
 		key := shortPkg(s.fn) + "." + sym.FuncKey(s.fn)
+		// named by enclosing function and ordinal (stable when lines shift)
+		ord[key+"/"+s.kind]++
+		name := fmt.Sprintf("site:%s#%s%d", key, s.kind, ord[key+"/"+s.kind])
 		listing = append(listing, fmt.Sprintf("%s %s in %s via %s module=%q", s.kind, s.pos, key, s.via, s.module))
 		o := &Outcome{Name: name + "/classified", Func: key, Kind: "scan", Status: "discharged"}
 		ledgerOnly := s.local && strings.Contains(s.via, "wrapper") || s.local && strings.Contains(strings.ToLower(s.via), "commitmentkeeper") || s.local && strings.Contains(strings.ToLower(s.via), "commkeeper")
